@@ -399,6 +399,17 @@ impl<T> Model for PhantomData<T> {
     }
 }
 
+impl<T: Sample> Sample for crate::hand::units::PhantomData<T> {
+    fn sample(r: &mut Rng, d: u32) -> Self {
+        crate::hand::units::PhantomData(T::sample(r, d.saturating_sub(1)))
+    }
+}
+impl<T: Model> Model for crate::hand::units::PhantomData<T> {
+    fn model(&self) -> Val {
+        Val::composite(vec![(None, self.0.model())])
+    }
+}
+
 impl Sample for () {
     fn sample(_r: &mut Rng, _d: u32) -> Self {}
 }
